@@ -4,6 +4,17 @@ import json, os
 HERE = os.path.dirname(os.path.dirname(os.path.abspath(__file__)))
 
 CHECKS = {
+ 'C02': dict(engine='K', technique='bounded model checking: metric.pyx + gambit.metric translated to SMT (QF_BV merge stage per dtype pair and length bound, QF_FP float stage over all N,M,u < 2^24), z3 + cvc5',
+             text='For every pair of sorted duplicate-free arrays up to the length bound, in every accepted dtype pair, the merge loop of the current '
+                  'metric.pyx ends with (N,M,u) = (|a|,|b|,|a or b|) with all reads in bounds; for every such triple below 2^24 the returned float32 '
+                  'is bit-identical to the exact quotient rounded once.  Counterexamples are replayed on the real kernel.',
+             note='Trusted: z3/cvc5, kbmc translator and C typing rules (validated against the compiled module), the assume-guarantee cut after the merge loop, specs/jaccard_spec.py.',
+             ref='3/C02'),
+ 'C15': dict(engine='K', technique='bounded model checking of the translated metric kernel (QF_BV / QF_FP, UF abstraction for congruence obligations) + exact spec-level triangle inequality over bitmask sets',
+             text='Range, d=0 iff equal, d=1 iff disjoint, bit-exact symmetry, width independence and monotonicity are decided by SMT on the translated kernel '
+                  '(float stage over all N,M,u within the stated width, integer stage over all arrays within the length bound); triangle inequality exactly over all subsets of a small universe.',
+             note='Trusted: as C02; IEEE-754 half-ulp bound used for the 2^-22 slack is cited, not discharged.  One open known finding (float32 resolution for unions >= 2^20).',
+             ref='3/C15'),
  'C07': dict(engine='K', technique='bounded model checking: kmers.pyx translated to SMT (QF_BV) per k, z3 + cvc5 cross-check',
              text='For every k = 1..32 (the kernels\' whole domain) and every byte string / index, the negated property is unsat over the '
                   'SMT translation of the current kmers.pyx; counterexamples are replayed on the real kernels.',
